@@ -51,6 +51,16 @@ class UserAddEdge(ActionGroup):
                 f"Cannot add edge {edge}: source must be earlier in time than target"
             )
 
+        # Check the division limit before removing anything, so that a refused
+        # action leaves the tracks untouched
+        out_degree_source = self.tracks.graph.out_degree(source)
+        if self.tracks.graph.has_edge(source, target):
+            out_degree_source -= 1  # the existing edge is removed first when forcing
+        if out_degree_source > 1:
+            raise InvalidActionError(
+                f"Expected degree of 0 or 1 before adding edge, got {out_degree_source}"
+            )
+
         # Check if making a merge. If yes and force, remove the other edge and update
         # track ids.
         in_degree_target = self.tracks.graph.in_degree(target)
